@@ -89,3 +89,29 @@ Definition chk_query (c : jconf) (ov : N -> N -> bool) (qc : qcase) : bool :=
 Definition chk_spec (c : jconf) (ov : N -> N -> bool) (qc : qcase) : bool :=
   let '(s, ns, (code, rows)) := qc in
   negb (N.eqb code 0) || set_eqb zlist_eqb (map (row_vals ns) (spec c ov (recs s) ns)) rows.
+
+(* ---- configuration cases: what the implementation's universe reports vs the model's configuration ---- *)
+Fixpoint slist_eqb (a b : list string) : bool :=
+  match a, b with
+  | [], [] => true
+  | x :: r, y :: s => String.eqb x y && slist_eqb r s
+  | _, _ => false
+  end.
+
+(* (element, defines_relationships, has_own_table, view-of target or "", spatial family or "", members of that family
+   most-fine-grained first) *)
+Definition ecase := (string * bool * bool * string * string * list string)%type.
+
+Definition chk_elem (c : jconf) (ec : ecase) : bool :=
+  let '(n, dr, own, vw, fam, members) := ec in
+  match find_elem (ju c) n with
+  | None => false
+  | Some e =>
+    Bool.eqb (defines_rel e) dr && Bool.eqb (has_table c e) own
+    && String.eqb (match view_of c n with Some t => t | None => "" end) vw
+    && String.eqb (match espatial e with Some f => f | None => "" end) fam
+    && match espatial e with
+       | Some f => existsb (fun fm => String.eqb (fst fm) f && slist_eqb (snd fm) members) (jfams c)
+       | None => true
+       end
+  end.
